@@ -159,6 +159,7 @@ EndReport ==
                         \cup (IF InfBucketLow(snap, 1, rep) THEN {} ELSE {"inf-low"})
                         \cup (IF InfBucketHigh(hi, 1, rep) THEN {} ELSE {"inf-high"})
                         \cup (IF InfBucketMonotone(lastRep, rep, 1) THEN {} ELSE {"inf-monotone"})
+                        \cup (IF OverflowWithinCount(1, rep) THEN {} ELSE {"overflow-exceeds-count"})
     /\ rpc' = "idle" /\ nrep' = nrep + 1
     /\ UNCHANGED <<gb, lb, lastP, reg, arch, wpc, nops, acc, cur, todo, snap, lo, hi, inflight, upend, abs>>
 
@@ -174,6 +175,7 @@ StoredFieldsOk == "envelope" \notin bad /\ "monotone" \notin bad
 InfBucketLowOk == "inf-low" \notin bad
 InfBucketHighOk == "inf-high" \notin bad
 InfBucketMonotoneOk == "inf-monotone" \notin bad
+OverflowWithinCountOk == "overflow-exceeds-count" \notin bad
 \* a report taken with nobody active is exact (sequential judge on the ghost totals)
 QuiescentExact ==
     (rpc = "idle" /\ nrep > 0 /\ lo = hi /\ snap = lo) =>
